@@ -86,6 +86,21 @@ class Slots:
         return r
 
 
+SPELL = [0]
+
+
+def spell(ty):
+    """every third primitive / String parameter type is written as a qualified path: the macro
+    decides between typed and Debug recording from the type's LAST path segment"""
+    SPELL[0] += 1
+    k = SPELL[0] % 6
+    if k not in (0, 3):
+        return ty
+    if ty == "String":
+        return "std::string::String" if k == 0 else "::std::string::String"
+    return f"::core::primitive::{ty}" if k == 0 else f"std::primitive::{ty}"
+
+
 def mk_param(kind, i, sl, lt, send):
     """lt: "'a " or ""; send: add Send bounds to generic things"""
     p = Param(kind)
@@ -95,7 +110,7 @@ def mk_param(kind, i, sl, lt, send):
     ltb = " + 'a" if lt else ""
     if kind in ("i32", "i64", "u8", "u64", "usize"):
         v = sl.nv()
-        p.pat, p.ty = n, kind
+        p.pat, p.ty = n, spell(kind)
         p.store = [f"let s{i} = arg_eval({i}, inp.v[{v}] as {kind});"]
         p.call = f"s{i}"
         p.binds = [Bind(n, f"({n} as i64)", f"inp.v[{v}]", f'f_int("{n}", inp.v[{v}])')]
@@ -108,14 +123,15 @@ def mk_param(kind, i, sl, lt, send):
         p.mut_stmts = [f"{n} += 1;", f"{n} += {{v}};"]
     elif kind == "bool":
         b = sl.nb()
-        p.pat, p.ty = n, "bool"
+        p.pat, p.ty = n, spell("bool")
         p.store = [f"let s{i} = arg_eval({i}, inp.b[{b}]);"]
         p.call = f"s{i}"
         p.binds = [Bind(n, f"({n} as i64)", f"(inp.b[{b}] as i64)", f'f_bool("{n}", inp.b[{b}])')]
     elif kind in ("ref_str", "string", "ref_string"):
         s = sl.ns()
         p.pat = n
-        p.ty = {"ref_str": f"&{lt}str", "string": "String", "ref_string": f"&{lt}String"}[kind]
+        st = spell("String")
+        p.ty = {"ref_str": f"&{lt}str", "string": st, "ref_string": f"&{lt}{st}"}[kind]
         p.store = [f"let s{i} = arg_eval({i}, inp.s[{s}].clone());"]
         p.call = {"ref_str": f"s{i}.as_str()", "string": f"s{i}", "ref_string": f"&s{i}"}[kind]
         p.binds = [Bind(n, f"({n}.len() as i64)", f"(inp.s[{s}].len() as i64)", f'f_str("{n}", &inp.s[{s}])',
@@ -887,6 +903,7 @@ fn exp_{N}(inp: &Inp, cx: &Cx) -> Exp {{
 
 
 def gen_corpus(k, seed, n):
+    SPELL[0] = k
     rng = random.Random(seed * 7919 + 17)
     out = [f"// GENERATED by /verif/harness/gen/c17.py (corpus {k}, seed {seed}, {n} twins) -- do not edit by hand.",
            "#![allow(non_camel_case_types, clippy::all, unused_imports, dead_code, unused_parens, unused_braces, unused_assignments)]",
